@@ -32,6 +32,15 @@ class Row:
         self.__dict__.update(kw)
 
 
+class _JD(float):
+    """the clock's current Julian date"""
+
+
+# (deliberately NOT the conversion of the datetime below, from which it differs in the last bits like the real clock's value does for most start instants)
+JD_NOW = _JD(2459304.1666681)
+_is_now = lambda x: isinstance(x, float) and float(x) == float(JD_NOW)  # bit-for-bit the clock's value, whatever float type carries it
+
+
 def _scenario(vc, install, log, truth_only, save_steps, epoch_exists, detected):
     mk_row = lambda kind, i: _NS(kind=kind, agent=i)
     tas = {i: _NS(simulation_id=i, getCurrentEphemeris=lambda i=i: mk_row("truth", i)) for i in (1, 2, 3)}
@@ -74,8 +83,10 @@ def _scenario(vc, install, log, truth_only, save_steps, epoch_exists, detected):
         log.append(("getData", q.what, q.cond, multi))
         return "EXISTING" if epoch_exists else None
     db = _NS(getData=get_data, insertData=lambda *rows: log.append(("insertData", rows)), bulkSave=lambda data: log.append(("bulkSave", list(data))))
-    when = _NS(isoformat=lambda timespec=None: ("ISO", timespec))
-    clock = _NS(datetime_epoch=when, julian_date_epoch="JDNOW")
+    # a real datetime (16:00:00.123456 - not a short binary fraction of a day) next to the clock's own Julian date: the epoch row must carry the CLOCK's value (the one every
+    # other row of the step carries), not a second conversion of the datetime that agrees only to ~1e-5 s
+    when = __import__("datetime").datetime(2021, 3, 30, 16, 0, 0, 123456)
+    clock = _NS(datetime_epoch=when, julian_date_epoch=JD_NOW)
     cfg = _NS(propagation=_NS(truth_simulation_only=truth_only))
     scn = vc.new(SC + "Scenario", estimation_config=_NS(sequential_filter=_NS(save_filter_steps=save_steps)), database=db, clock=clock, target_agents=tas, _sensor_agents=sas, _estimate_agents=eas, _tasking_engines=engs,
                  scenario_config=cfg, logger=_NS(debug=lambda *a: None, info=lambda *a: None))
@@ -110,12 +121,12 @@ def _output(vc, install):
         gets = [e for e in log if e[0] == "getData"]
         ins = [e for e in log if e[0] == "insertData"]
         bulk = [e for e in log if e[0] == "bulkSave"]
-        iso = ("ISO", "microseconds")
+        iso = "2021-03-30T16:00:00.123456"
         ok = len(gets) == 1 and gets[0][1] is EpochCls and gets[0][2] == ("==", "timestampISO", iso) and gets[0][3] is False
         if epoch_exists:
             ok = ok and ins == []
         else:
-            ok = ok and len(ins) == 1 and len(ins[0][1]) == 1 and isinstance(ins[0][1][0], EpochCls) and ins[0][1][0].julian_date == "JDNOW" and ins[0][1][0].timestampISO == iso
+            ok = ok and len(ins) == 1 and len(ins[0][1]) == 1 and isinstance(ins[0][1][0], EpochCls) and _is_now(ins[0][1][0].julian_date) and ins[0][1][0].timestampISO == iso
         oks["epoch"].append(ok)
         oks["atomic"].append(len(bulk) == 1 and (not ins or log.index(ins[0]) < log.index(bulk[0])))
         rows = bulk[0][1] if bulk else []
@@ -126,7 +137,7 @@ def _output(vc, install):
         exp_miss = [] if truth_only else sorted([(5, 0), (6, 0)], key=repr)
         exp_task = [] if truth_only else sorted([(5, 0), (5, 1), (6, 0), (6, 1)], key=repr)
         asked = [e for e in log if e[0] == "tasking-asked"]
-        oks["eng"].append(cnt("obs") == exp_obs and cnt("miss") == exp_miss and cnt("task") == exp_task and all(a[2] == "JDNOW" for a in asked)
+        oks["eng"].append(cnt("obs") == exp_obs and cnt("miss") == exp_miss and cnt("task") == exp_task and all(_is_now(a[2]) for a in asked)
                           and len(asked) == (0 if truth_only else 2))
         exp_man = [] if truth_only else [i for i, d in ((1, d0), (2, d1)) if d]
         exp_steps = [1, 1, 2, 2] if save_steps else []
